@@ -125,7 +125,9 @@ def validate(traces, rep: Report, prop: str, *, nshards=None):
         # a container that never finishes its suspension also never reaches its one outcome (C09)
         also = {"conf.C10.lists": {"C09"}, "C10.SuspLeftPositive": {"C09"},
                 # "leaving earlier operators completed and the current and later ones failed" is a sentence of C05 as well
-                "C09.ResultShape": {"C05"}}.get(clause, set())
+                "C09.ResultShape": {"C05"},
+                # SUSPENDING -> PENDING belongs to the end of the suspension only (lifecycle), and until then the container is live
+                "C10.NoEarlyRelease": {"C02"}}.get(clause, set())
         if own != prop and prop not in also:
             continue
         tr = by_tid.get(tid, [])
